@@ -15,7 +15,8 @@ static evt_priv_t g_evts[V_KBATCH + 1]; static size_t g_newevt;
 evt_priv_t *new_evt(ev_src_t *src) { evt_priv_t *e = &g_evts[g_newevt < V_KBATCH ? g_newevt : V_KBATCH]; g_newevt++; e->src = src; e->evt.type = src->type; e->evt.fd_evt = NULL; return e; }
 static m_evt_ps_t g_msgs[V_KBATCH + 1]; static char g_pilltopic[] = M_PS_MOD_POISONPILL; static char g_usertopic[] = "LIBMODULE_MOD_POISONPILx";
 static size_t g_process_calls;
-static ev_src_t *v_process(ev_src_t *this, m_ctx_t *c, int idx, evt_priv_t *evt) { (void)c; g_process_calls++; evt->evt.ps_evt = &g_msgs[(idx >= 0 && idx < V_KBATCH) ? idx : V_KBATCH]; return this; }
+static ev_src_t *g_proc_ret;      /* what the process callback returns: the source itself, or (pub/sub) the subscription the message was matched with */
+static ev_src_t *v_process(ev_src_t *this, m_ctx_t *c, int idx, evt_priv_t *evt) { (void)c; g_process_calls++; evt->evt.ps_evt = &g_msgs[(idx >= 0 && idx < V_KBATCH) ? idx : V_KBATCH]; return g_proc_ret ? g_proc_ret : this; }
 static size_t g_unref_calls; static void *g_unref_last;
 void *m_mem_unref(void *p) { g_unref_calls++; g_unref_last = p; return NULL; }
 static size_t g_iter_calls;
@@ -31,7 +32,10 @@ void v_push(m_mod_t *mod, evt_priv_t *evt) {
 static size_t g_stop_calls, g_stop_at_push;
 int stop(m_mod_t *mod, bool stopping) { V_CHECK("C08.pill-stops-exactly-its-recipient", mod == &g_modobj && stopping); g_stop_calls++; g_stop_at_push = g_push_n; mod->state = M_MOD_STOPPED; return 0; }
 
-#define H_INPUTS(X) X(uint8_t, n) X(int8_t, pill) X(uint8_t, topics)
+static size_t g_maprm_calls, g_bstrm_calls; static const void *g_maprm_map, *g_maprm_key, *g_bstrm_set, *g_bstrm_data;
+int m_map_remove(m_map_t *m, const char *key) { g_maprm_calls++; g_maprm_map = m; g_maprm_key = key; return 0; }
+int m_bst_remove(m_bst_t *l, void *data) { g_bstrm_calls++; g_bstrm_set = l; g_bstrm_data = data; return 0; }
+#define H_INPUTS(X) X(uint8_t, n) X(int8_t, pill) X(uint8_t, topics) X(uint8_t, kind)
 V_DEFINE_INPUTS(H_INPUTS)
 void h_recv_pill_real(void) {
     v_inputs_init(); v_base_init();
@@ -41,7 +45,7 @@ void h_recv_pill_real(void) {
     g_srcobj.mod = &g_modobj; g_srcobj.type = M_SRC_TYPE_PS; g_srcobj.flags = M_SRC_PRIO_HIGH | M_SRC_INTERNAL; g_srcobj.process = v_process;
     /* message i: the pill at position vin_pill; otherwise a user message without topic, or with a topic that differs from the reserved one only in its last character */
     for (size_t i = 0; i < V_KBATCH; i++) { g_msgs[i].system = ((int)i == vin_pill); g_msgs[i].topic = ((int)i == vin_pill) ? g_pilltopic : (((vin_topics >> i) & 1) ? g_usertopic : NULL); }
-    g_newevt = 0; g_push_n = 0; g_stop_calls = 0; g_unref_calls = 0; g_process_calls = 0; g_iter_calls = 0; g_ctxobj.stats.recv_msgs = 5;
+    g_newevt = 0; g_push_n = 0; g_stop_calls = 0; g_unref_calls = 0; g_process_calls = 0; g_iter_calls = 0; g_ctxobj.stats.recv_msgs = 5; g_proc_ret = NULL;
     int r = recv_events(&g_ctxobj, -1);
     bool has_pill = vin_pill >= 0 && vin_pill < (int)vin_n;
     size_t before = has_pill ? (size_t)vin_pill : vin_n;
@@ -57,6 +61,30 @@ void h_recv_pill_real(void) {
     }
     V_COVER("pill-second-of-three", vin_n == 3 && vin_pill == 1); V_COVER("pill-last", vin_n == 2 && vin_pill == 1); V_COVER("no-pill-three-topics", vin_n == 3 && vin_pill == -1 && (vin_topics & 7) == 7);
     V_COVER("pill-beyond-batch", vin_pill == 2 && vin_n == 1);
+    V_CANARY();
+}
+/* one-shot sources: after its event was consumed the source is taken out of its module's registry under the key it was REGISTERED with (a subscription: its
+ * registration topic/pattern, which need not equal the topic of the message that matched it; any other kind: the source itself), exactly once per event; the event is still delivered */
+void h_recv_oneshot_real(void) {
+    v_inputs_init(); v_base_init();
+    V_ASSUME(vin_n <= 2 && vin_kind <= 2);
+    static ev_src_t subobj; static char pattern[] = "^job/.*"; static char msgtopic[] = "job/1"; static int subs_obj, tmrs_obj;
+    g_nfds = vin_n;
+    g_modobj.ctx = &g_ctxobj; g_modobj.state = M_MOD_RUNNING; g_modobj.name = "m"; g_modobj.subscriptions = (m_map_t *)&subs_obj; g_modobj.srcs[M_SRC_TYPE_TMR] = (m_bst_t *)&tmrs_obj;
+    g_srcobj.mod = &g_modobj; g_srcobj.process = v_process;
+    if (vin_kind == 0) { g_srcobj.type = M_SRC_TYPE_PS; g_srcobj.flags = M_SRC_PRIO_HIGH | M_SRC_INTERNAL; subobj.type = M_SRC_TYPE_PS; subobj.flags = M_SRC_ONESHOT | M_SRC_PRIO_NORM; subobj.mod = &g_modobj;
+                         subobj.ps_src.topic = pattern; g_proc_ret = &subobj; }
+    else { g_srcobj.type = M_SRC_TYPE_TMR; g_srcobj.flags = (vin_kind == 1 ? M_SRC_ONESHOT : 0) | M_SRC_PRIO_NORM; g_proc_ret = NULL; }
+    for (size_t i = 0; i < V_KBATCH; i++) { g_msgs[i].system = false; g_msgs[i].topic = msgtopic; }
+    g_newevt = 0; g_push_n = 0; g_stop_calls = 0; g_unref_calls = 0; g_process_calls = 0; g_maprm_calls = 0; g_bstrm_calls = 0; g_ctxobj.stats.recv_msgs = 5;
+    int r = recv_events(&g_ctxobj, -1);
+    V_CHECK("C03.event-of-a-one-shot-source-is-still-delivered", r == (int)vin_n && g_push_n == vin_n && g_stop_calls == 0);
+    if (vin_kind == 0) V_CHECK("C03.one-shot-subscription-removed-under-its-registration-key", g_maprm_calls == vin_n && g_bstrm_calls == 0
+                               && (vin_n == 0 || (g_maprm_map == (const void *)&subs_obj && g_maprm_key == (const void *)pattern)));
+    if (vin_kind == 1) V_CHECK("C03.one-shot-source-removed-from-the-set-of-its-kind", g_bstrm_calls == vin_n && g_maprm_calls == 0
+                               && (vin_n == 0 || (g_bstrm_set == (const void *)&tmrs_obj && g_bstrm_data == (const void *)&g_srcobj)));
+    if (vin_kind == 2) V_CHECK("C03.other-sources-stay-registered", g_bstrm_calls == 0 && g_maprm_calls == 0);
+    V_COVER("oneshot-subscription", vin_kind == 0 && vin_n == 1); V_COVER("oneshot-timer", vin_kind == 1 && vin_n == 2); V_COVER("not-oneshot", vin_kind == 2 && vin_n == 1);
     V_CANARY();
 }
 #ifdef V_NATIVE
